@@ -1,6 +1,6 @@
 #!/bin/bash
 # run every registered quick check on /repo (regenerates /verif/evidence); prints one line per check
-cd /verif
+cd "$(dirname "$0")/.."
 for id in $(/venv/bin/python -c "import json; print(' '.join(c['property_id'] for c in json.load(open('MANIFEST.json'))['checks']))"); do
   out=$(VERIF_SEED=${VERIF_SEED:-1} /venv/bin/python -W ignore -m vf.run $id --tier ${1:-quick} 2>&1); rc=$?
   echo "$id exit=$rc $(echo "$out" | grep -v KNOWN-FINDING | tail -1 | cut -c1-200)"
